@@ -127,7 +127,7 @@ EXTRA = {
 }
 INT_HPS = {"batch_size", "learn_step", "policy_freq", "update_epochs"}
 # algorithms whose learn() the harness drives (a TensorDict batch suffices); the optimizer steps are recorded
-LEARN_ALGOS = ("DQN", "Rainbow DQN", "CQN", "DDPG", "TD3", "NeuralUCB", "NeuralTS")
+LEARN_ALGOS = ("DQN", "Rainbow DQN", "CQN", "DDPG", "TD3", "NeuralUCB", "NeuralTS", "PPO", "IPPO", "MADDPG", "MATD3")
 
 
 def expected_lr_name(algo, opt_name):
@@ -314,7 +314,9 @@ class C06(vlib.Driver):
                 ops = []
                 for t in range(nops):
                     r = rng.random()
-                    if r < 0.7 or (size == 1 and r >= 0.9):
+                    if r < 0.08 and size > 1:
+                        ops.append(["round_keep_elite", [[self.pick_index(names, algo, rng), self.pick_u(rng)] for _ in range(size - 1)]])
+                    elif r < 0.7 or (size == 1 and r >= 0.9):
                         ops.append(["round", [[self.pick_index(names, algo, rng), self.pick_u(rng)] for _ in range(size)]])
                     elif r < 0.8:
                         ops.append(["one", rng.randrange(size), self.pick_index(names, algo, rng), self.pick_u(rng)])
@@ -335,6 +337,7 @@ class C06(vlib.Driver):
             for li, ln in enumerate(lr_names(algo)):
                 bs = len(names) - 1
                 ops = [["round", [[li, 0.25], [li, 0.75]]], ["round", [[li, 0.75], [bs, 0.25]]], ["round", [[li, 0.25], [li, 0.25]]]]
+                ops = ops + [["round_keep_elite", [[li, 0.75]]]]      # mutate_elite=False: member 0 must not move
                 if algo in LEARN_ALGOS:   # ... and the optimizers that learn() then steps run with the mutated rate
                     ops = ops[:1] + [["learn", 0, 11], ["learn", 1, 12]] + ops[1:] + [["other", 0, "arch", 5], ["learn", 0, 13], ["learn", 1, 14]]
                 cases.append({"kind": "pop", "algo": algo, "size": 2, "hp": {n: default_par(n) for n in names},
@@ -344,7 +347,8 @@ class C06(vlib.Driver):
             # be the RESTORED value (the registry with its cached values travels with the checkpoint)
             names = lr_names(algo) + ["batch_size"]
             for hi in (0, len(names) - 1):
-                ops = [["one", 0, hi, 0.75], ["one", 1, hi, 0.25], ["loadinto", 0, 1], ["round", [[hi, 0.75], [hi, 0.75]]],
+                ops = [["one", 0, hi, 0.75], ["one", 1, hi, 0.25], ["loadinto", 0, 1], ["round", [[hi, 0.75], [hi, 0.25]]],
+                       ["loadinto", 1, 0], ["clone", 0, 1], ["other", 1, "param", 7], ["round", [[hi, 0.25], [hi, 0.25]]],
                        ["one", 1, hi, 0.25], ["loadnew", 1, 0], ["round", [[hi, 0.25], [len(names) - 1 - hi, 0.75]]],
                        ["clone", 0, 1], ["loadinto", 1, 0], ["round", [[hi, 0.75], [hi, 0.25]]]]
                 cases.append({"kind": "pop", "algo": algo, "size": 2, "hp": {n: default_par(n) for n in names},
@@ -531,6 +535,11 @@ class C06(vlib.Driver):
                 with Scripted(perms=[d[0] for d in op[1]], rands=[d[1] for d in op[1]], nconfig=ncfg) as s:
                     pop = list(muts.mutation(pop))
                 s.assert_consumed()
+            elif op[0] == "round_keep_elite":
+                with Scripted(perms=[d[0] for d in op[1]], rands=[d[1] for d in op[1]], nconfig=ncfg) as s:
+                    pop = list(Mutations(no_mutation=0, architecture=0, new_layer_prob=0, parameters=0, activation=0, rl_hp=1,
+                                         mutate_elite=False, rand_seed=0).mutation(pop))
+                s.assert_consumed()
             elif op[0] == "one":
                 with Scripted(perms=[op[2]], rands=[op[3]], nconfig=ncfg) as s:
                     pop[op[1]] = muts.mutation([pop[op[1]]])[0]
@@ -578,7 +587,22 @@ class C06(vlib.Driver):
         try:
             for _ in range(2):
                 B = int(agent.batch_size)
-                if algo in ("NeuralUCB", "NeuralTS"):
+                if algo in ("MADDPG", "MATD3"):
+                    ids = agent.agent_ids
+                    td = ({a: torch.randn(B, 4, generator=g) for a in ids}, {a: torch.rand(B, 2, generator=g) * 2 - 1 for a in ids},
+                          {a: torch.randn(B, 1, generator=g) for a in ids}, {a: torch.randn(B, 4, generator=g) for a in ids},
+                          {a: torch.zeros(B, 1) for a in ids})
+                elif algo == "PPO":
+                    T = 2 * B
+                    td = (torch.randn(T, 4, generator=g), torch.randint(0, 3, (T,), generator=g), -torch.rand(T, generator=g),
+                          torch.randn(T, generator=g), torch.zeros(T), torch.randn(T, generator=g), torch.randn(4, generator=g), torch.zeros(1))
+                elif algo == "IPPO":
+                    T, ids = 2 * B, agent.agent_ids
+                    f = lambda mk: {a: mk() for a in ids}
+                    td = (f(lambda: torch.randn(T, 4, generator=g)), f(lambda: torch.randint(0, 3, (T,), generator=g)),
+                          f(lambda: -torch.rand(T, generator=g)), f(lambda: torch.randn(T, generator=g)), f(lambda: torch.zeros(T)),
+                          f(lambda: torch.randn(T, generator=g)), f(lambda: torch.randn(4, generator=g)), f(lambda: torch.zeros(1)))
+                elif algo in ("NeuralUCB", "NeuralTS"):
                     td = TensorDict({"obs": torch.randn(B, 4, generator=g), "reward": torch.randn(B, 1, generator=g)}, batch_size=[B])
                 else:
                     act = (torch.randint(0, 3, (B, 1), generator=g) if algo in ("DQN", "Rainbow DQN", "CQN")
@@ -637,6 +661,8 @@ class C06(vlib.Driver):
         for op in case["ops"]:
             if op[0] == "round":
                 ops.append("Round [" + "; ".join(f"({k}, {cf(u)})" for k, u in op[1]) + "]")
+            elif op[0] == "round_keep_elite":
+                ops.append("RoundKeepElite [" + "; ".join(f"({k}, {cf(u)})" for k, u in op[1]) + "]")
             elif op[0] == "one":
                 ops.append(f"MutOne {op[1]} {op[2]} {cf(op[3])}")
             elif op[0] == "loadinto":
@@ -661,6 +687,8 @@ class C06(vlib.Driver):
                 unknown -= set(range(len(op[1]))) if case["order"] else set(range(len(step)))
             elif op[0] == "one":
                 unknown.discard(op[1])
+            elif op[0] == "round_keep_elite":
+                unknown -= set(range(len(step)))
             elif op[0] in ("clone", "loadinto", "loadnew"):
                 (unknown.add if op[1] in unknown else unknown.discard)(op[2])
             stp = "[" + "; ".join(f"({a}, {j}, [{'; '.join(cf(x) for x in lrs)}])" for a, j, lrs in st) + "]"
@@ -777,6 +805,10 @@ class C06(vlib.Driver):
                 touched = {i: d for i, d in enumerate(op[1])}
             elif op[0] == "one":
                 touched = {op[1]: [op[2], op[3]]}
+            elif op[0] == "round_keep_elite":
+                touched = {i + 1: d for i, d in enumerate(op[1])}
+                if after and after[0]["mut"] != "None":
+                    return done(Violation("label", f"pop:elite-label:{algo}", f"{where}: mutate_elite=False but member 0 has label {after[0]['mut']!r}"), t)
             elif op[0] in ("clone", "loadinto", "loadnew"):
                 src = {op[2]: op[1]}
             for i, (b, a) in enumerate(zip(prev, after)):
@@ -836,6 +868,8 @@ class C06(vlib.Driver):
             for op in case["ops"]:
                 if op[0] == "round":
                     ops.append(["round", [[k, u < 0.5] for k, u in op[1]]])
+                elif op[0] == "round_keep_elite":
+                    ops.append(["round_keep_elite", [[k, u < 0.5] for k, u in op[1]]])
                 elif op[0] == "one":
                     ops.append(["one", op[1], op[2], op[3] < 0.5])
                 else:
@@ -862,6 +896,8 @@ class C06(vlib.Driver):
                 ds = {}
                 if op[0] == "round":
                     ds = {i: d for i, d in enumerate(op[1])}
+                elif op[0] == "round_keep_elite":
+                    ds = {i + 1: d for i, d in enumerate(op[1])}
                 elif op[0] == "one":
                     ds = {op[1]: [op[2], op[3]]}
                 for i, (k, u) in ds.items():
